@@ -33,12 +33,15 @@ RandomExchange(salt) ==
   IF kind = "ssh"
     THEN LET u == SshUnits(salt) IN
          [kind |-> "ssh", reqs |-> u, replies |-> [i \in 1..Len(u) |-> IF i = Len(u) /\ u[i].method = "data" THEN RandomElement({0, 1, 700, 65536}) ELSE 0],
-          pipelined |-> FALSE, cut |-> 0, replycut |-> 0, clients |-> RandomElement(1..3), halfclose |-> FALSE]
+          pipelined |-> FALSE, cut |-> 0, replycut |-> 0, clients |-> RandomElement(1..3), halfclose |-> FALSE, portless |-> 0]
   ELSE IF kind = "http"
     THEN [kind |-> "http", reqs |-> RandReqs(n, salt), replies |-> [i \in 1..n |-> RandomElement({0, 1, 700, 65536})],
           pipelined |-> RandomElement(BOOLEAN), cut |-> RandomElement(0..200), replycut |-> RandomElement(0..100), clients |-> RandomElement(1..3),
-          halfclose |-> FALSE]
-    ELSE [kind |-> kind, halfclose |-> (kind = "copy" /\ RandomElement(BOOLEAN)), reqs |-> [i \in 1..n |-> [kind |-> kind, body |-> RandomElement({1, 12, 512, 1400} \cup (IF kind = "copy" THEN {65536} ELSE {})), hasUA |-> TRUE, extraHeader |-> FALSE]],
+          halfclose |-> FALSE, portless |-> 0]
+    \* portless: the director names a host without a port, so the backend is that host at the port the client connected to;
+    \* two proxies (1, 2) share such a director - every connection must reach the backend of ITS port
+    ELSE [kind |-> kind, halfclose |-> (kind = "copy" /\ RandomElement(BOOLEAN)),
+          portless |-> (IF kind = "copy" THEN RandomElement({0, 0, 1, 2}) ELSE 0), reqs |-> [i \in 1..n |-> [kind |-> kind, body |-> RandomElement({1, 12, 512, 1400} \cup (IF kind = "copy" THEN {65536} ELSE {})), hasUA |-> TRUE, extraHeader |-> FALSE]],
           replies |-> [i \in 1..n |-> RandomElement({1, 30, 900})], pipelined |-> FALSE, cut |-> RandomElement(0..50), replycut |-> 0, clients |-> RandomElement(1..3)]
 
 P == INSTANCE Proxy WITH Backend <- "backend", Others <- {"decoy"}, Deviations <- Devs
